@@ -5,7 +5,7 @@
 From Coq Require Import ZArith List Bool.
 Import ListNotations.
 From MirV Require Import Mir.DocSpec Mir.CExpr C02.RowCheck C02.Table gen.InterpTable C02.InterpFacts
-  C02.GvnCheck gen.GvnFoldTable C02.GvnFacts C02.MemRows
+  C02.GvnCheck gen.GvnFoldTable C02.GvnFacts C02.MemRows C02.GvnMemType
   C02.PeepholeDefs C02.PeepholeProofs gen.Peephole C02.PeepholeFacts
   Mir.Opcode Mir.DocSpecInt C02.X86Sem C02.X86Check gen.X86Patterns C02.X86TableFacts
   C02.BuiltinCheck gen.X86Builtins C02.X86BuiltinFacts.
@@ -50,6 +50,21 @@ Print Assumptions overflow_flags_sound.
 Theorem gvn_fold_row_sound : forall op g s, In (op, g, s) gvn_table -> gvn_row_sound op s.
 Proof. exact gvn_rows_sound. Qed.
 Print Assumptions gvn_fold_row_sound.
+
+(* GVN's memory expressions (mir-gen.c canonic_mem_type, regenerated from the preprocessed source): the optimiser
+   (-O2/-O3) identifies two accesses of one address value whose types have the same canonical type -- the second load
+   gets the value of the first, a load after a store the stored value.  Whenever two memory types are identified they
+   are the same documented access: the same extending load of EVERY cell content and the same truncating store of EVERY
+   value (only I64 / U64 / P may be merged); and every memory type has a canonical type. *)
+Theorem gvn_canonic_mem_type_sound : forall t1 t2 c,
+  In (t1, c) gvn_canonic_mem_type -> In (t2, c) gvn_canonic_mem_type ->
+  (forall bytes, load_ext t1 bytes = load_ext t2 bytes) /\ (forall v, store_trunc t1 v = store_trunc t2 v).
+Proof. exact gvn_canonic_sound. Qed.
+Print Assumptions gvn_canonic_mem_type_sound.
+
+Theorem gvn_canonic_mem_type_total : forall t, exists c, In (t, c) gvn_canonic_mem_type.
+Proof. exact gvn_canonic_total. Qed.
+Print Assumptions gvn_canonic_mem_type_total.
 
 (* Memory operands in the interpreter (the LD and ST macros behind the IC_LDxx and IC_STxx codes): a load of MIR type ty
    yields load_ext ty of the cell (sign / zero extension of narrow integers by the signedness of the
